@@ -139,6 +139,20 @@ def takeField (b : Bytes) (len : Nat) : Option (Bytes × Bytes) :=
   else if len > b.length then none
   else some (b.take len, b.drop len)
 
+/-- `m_msg_recv` on a request whose header says type 1 (`MUNGE_MSG_HDR`): the body is unpacked with the HEADER
+    chain, which checks a second magic / version and OVERWRITES `m->type` and `m->retry` (and `pkt_len`) with the
+    body's; `_job_exec` then dispatches on that second type with every other field still zero.  Bytes after the
+    second header are ignored (the `assert` on the cursor is compiled out). -/
+def recvHdrBody (body : Bytes) : Recv :=
+  if body.length < 11 then .drop "unpack" else
+  if rd32 (body.take 4) ≠ 6319435 then .drop "magic" else
+  if (body.getD 4 0).toNat ≠ 4 then .drop "version" else
+  let type := (body.getD 5 0).toNat
+  let retry := (body.getD 6 0).toNat
+  if type = 2 then .enc { type := 2, retry := retry }
+  else if type = 4 then .dec { type := 4, retry := retry }
+  else .drop "type"
+
 def recvMsg (req : Bytes) : Recv :=
   if req.length < 11 then .drop "incomplete header" else
   let magic := rd32 (req.take 4)
@@ -177,6 +191,7 @@ def recvMsg (req : Bytes) : Recv :=
     match takeField (body.drop 4) dl with
     | none => .drop "unpack"
     | some (data, _) => .dec { type := 4, retry := retry, dataLen := dl, data := data }
+  else if type = 1 then recvHdrBody body
   else .drop "type"
 
 /-! ### randomness: `random_pseudo_bytes` over the scripted stream -/
